@@ -667,6 +667,10 @@ class IteratorQueue(IterableQueue[_ValueT]):
             continue
           if self._dequeue_lock.wait(timeout=self.timeout):
             continue
+          if result:
+            # Returns what was already dequeued instead of dropping it, the
+            # next call times out again if nothing more arrives.
+            break
           raise TimeoutError(
               f'"{self.name}" dequeue timeout={self.timeout}secs.'
           ) from e
